@@ -8,7 +8,7 @@ def run(tier, seed):
     ts = errors.templates(tier, seed)
     c.bounds = {'error_kinds': len(errors.KINDS), 'positions': 29, 'call_depth': '0, 2, 5 (quick) / 0..5 (thorough)', 'representative kinds at positions': 7}
     c.outside = ['lexical / parse errors (C03, C18)', 'error kinds not constructible from the listed constructs']
-    c.run_family('errors', ts, ('exit', 'stdout', 'stderr-empty', 'format', 'stack', 'panic', 'hang'), errors.role, par_templates=6, par_paths=3)
+    c.run_family('errors', ts, ('exit', 'stdout', 'stderr-empty', 'format', 'message', 'stack', 'panic', 'hang'), errors.role, par_templates=6, par_paths=3)
     # failures the reference does not predict (strings that are not UTF-8 text used as slot values, keys, printed): whatever is reported must still be one located diagnostic
     from families import seq
     bs = [t for t in seq.templates(tier, seed) if t['name'].startswith('mb-byte-pieces')]
